@@ -52,6 +52,7 @@ func init() {
 
 type topField struct {
 	name     string
+	alias    string
 	position *ast.Position
 }
 
@@ -66,6 +67,7 @@ func retrieveTopFieldNames(selectionSet ast.SelectionSet) []*topField {
 			case *ast.Field:
 				fields = append(fields, &topField{
 					name:     selection.Name,
+					alias:    selection.Alias,
 					position: selection.GetPosition(),
 				})
 			case *ast.InlineFragment:
@@ -87,10 +89,15 @@ func retrieveTopFieldNames(selectionSet ast.SelectionSet) []*topField {
 	seen := make(map[string]bool, len(fields))
 	uniquedFields := make([]*topField, 0, len(fields))
 	for _, field := range fields {
-		if !seen[field.name] {
+		// fields are grouped by response key: two aliases of one field are two root fields
+		key := field.alias
+		if key == "" {
+			key = field.name
+		}
+		if !seen[key] {
 			uniquedFields = append(uniquedFields, field)
 		}
-		seen[field.name] = true
+		seen[key] = true
 	}
 	return uniquedFields
 }
